@@ -69,6 +69,9 @@ TOK == {[text |-> <<43>>, tok |-> 1, ty |-> "operator", val |-> <<43>>],
         [text |-> <<34,97,92,34,98,34>>, tok |-> 1, ty |-> "string", val |-> <<97,34,98>>],
         [text |-> <<39,120,92,110,121,39>>, tok |-> 1, ty |-> "string", val |-> <<120,10,121>>],
         [text |-> <<34,120,92,120,48,97,121,34>>, tok |-> 1, ty |-> "string", val |-> <<120,10,121>>],
+        [text |-> <<39,120,92,120,48,97,121,39>>, tok |-> 1, ty |-> "string", val |-> <<120,10,121>>],
+        [text |-> <<39,92,120,52,49,98,39>>, tok |-> 1, ty |-> "string", val |-> <<65,98>>],
+        [text |-> <<34,92,120,52,49,98,34>>, tok |-> 1, ty |-> "string", val |-> <<65,98>>],
         [text |-> <<39,108,49,10,108,50,39>>, tok |-> 1, ty |-> "string", val |-> <<108,49,10,108,50>>],
         [text |-> <<39,39>>, tok |-> 1, ty |-> "string", val |-> <<>>],
         [text |-> <<47,47,97,43,47,47>>, tok |-> 1, ty |-> "pattern", val |-> <<47,47,97,43,47,47>>],
